@@ -102,8 +102,8 @@ pub fn gen_plan(property: &str, seed: u64, index: u64, tier: Tier) -> Plan {
             }
             ops.push(Op::Search(depth));
         }
-        "C07" => {
-            scenario = "search-under-scheduler";
+        "C07" | "C12" => {
+            scenario = if property == "C12" { "invariant-monitor-under-scheduler" } else { "search-under-scheduler" };
             let roll = rng.below(10);
             if roll < 2 {
                 start = Pos::from_fen(*rng.pick(&TERMINAL_FENS[..])).unwrap();
@@ -342,6 +342,10 @@ pub fn exec(plan: &Plan) -> Outcome {
     }
     let plan_arc = Arc::new(plan.clone());
 
+    if plan.property == "C12" {
+        install_monitor();
+        let _ = take_monitor_violation();
+    }
     // 1. baseline: one worker, in order, deterministic scheduler
     let baseline: Arc<Mutex<Option<Answer>>> = Arc::new(Mutex::new(None));
     {
@@ -393,6 +397,14 @@ pub fn exec(plan: &Plan) -> Outcome {
         move || {
             let got = workload(&p, workers, steal);
             evals.fetch_add(1, Ordering::SeqCst);
+            if p.property == "C12" {
+                if let Some(v) = take_monitor_violation() {
+                    let mut parts = v.splitn(2, '|');
+                    let what = parts.next().unwrap_or("").to_string();
+                    let fen = parts.next().unwrap_or("").to_string();
+                    panic!("VERIF-JUDGE|C12/{}/transient-state-on-a-search-worker|state {} seen on a simulated search worker ({} workers) searching {}", what, fen, workers, fin.to_fen());
+                }
+            }
             let trace = verif_simpool::take_trace();
             let mut d = Digest::new();
             for t in trace.iter() {
@@ -453,6 +465,18 @@ pub fn exec(plan: &Plan) -> Outcome {
     }
     clear_dir(&dir);
     let _ = std::fs::remove_dir(&dir);
+    if plan.property == "C12" {
+        remove_monitor();
+        let (st, a, u, f) = monitor_counts();
+        stats.add("monitor/states-checked", st);
+        stats.add("monitor/applies", a);
+        stats.add("monitor/undos", u);
+        stats.add("monitor/failed-ops", f);
+        OBS_STATES.store(0, Ordering::Relaxed);
+        OBS_APPLIED.store(0, Ordering::Relaxed);
+        OBS_UNDONE.store(0, Ordering::Relaxed);
+        OBS_FAILED_OPS.store(0, Ordering::Relaxed);
+    }
     let n = evals.load(Ordering::SeqCst);
     stats.add("scheduled-executions", n);
     stats.add("fault/thread-interleaving-explored", n);
